@@ -371,7 +371,18 @@ func (e *LeaderEngine) commit() int {
 	if err != nil {
 		return -2
 	}
-	return int(st.CommitOffset)
+	c := int(st.CommitOffset)
+	if e.sess != nil {
+		// An RF=1 leader elected with a DB that lagged its log reports the DB's old commit offset until
+		// its next write (the quorum tracker is created before the tail is applied): what was applied is
+		// read from the DB.
+		if db := server.VerifLeaderDB(e.lc); db != nil {
+			if d, err := db.ReadCommitOffset(); err == nil && int(d) > c {
+				c = int(d)
+			}
+		}
+	}
+	return c
 }
 
 // Write goes through LeaderController.WriteBlock: offset allocation, WAL append, commit, apply.
